@@ -164,7 +164,7 @@ def judge_gcp(out, x, g, lb, ub, mats, B, xcp, c, where, tags):
 # ---------------------------------------------------------------------------
 # synthetic inputs
 # ---------------------------------------------------------------------------
-def make_memory(rng, n, npairs, convex=True, unit_theta=False, scale=1.0, idle=None):
+def make_memory(rng, n, npairs, convex=True, unit_theta=False, scale=1.0, idle=None, xunit=1.0):
     """Real LBFGSB_MATRICES built by the package from accepted pairs; returns (mats, B_dense) or None.
     unit_theta: the newest pair lies in a unit-curvature plane (y == s exactly), so theta == 1.0 with a non-empty memory."""
     from collections import deque
@@ -193,6 +193,8 @@ def make_memory(rng, n, npairs, convex=True, unit_theta=False, scale=1.0, idle=N
         A[idle, :] = 0.0
         A[:, idle] = 0.0
     x = rng.standard_normal(n) if not unit_theta else rng.integers(-8, 9, n) / 4.0
+    if xunit != 1.0 and not unit_theta:
+        x = x * xunit  # variables measured in tiny (or huge) length units: every stored step is of that size
     X, G = deque([x.copy()]), deque([A @ x])
     tries = 0
     while len(X) - 1 < npairs and tries < 4 * npairs + 4:
@@ -205,7 +207,7 @@ def make_memory(rng, n, npairs, convex=True, unit_theta=False, scale=1.0, idle=N
                     step[0] = 0.5
             x = x + step
         else:
-            step = rng.standard_normal(n) * np.exp(rng.uniform(-2, 0.5))
+            step = rng.standard_normal(n) * np.exp(rng.uniform(-2, 0.5)) * (xunit if not unit_theta else 1.0)
             if idle is not None and len(idle):
                 step[idle] = 0.0
             x = x + step
